@@ -6,7 +6,7 @@ from . import ty as T
 from .ty import SV
 from .engine import (Unsupported, ContractError, fresh_name, zand, zor, State, Out, common_prefix, locate,
                      number_nodes, LOGGERS)
-from .vals import (is_none, none_sv, unify, coerce, ite, mk_seq, seq_len, seq_arr, seq_eq)
+from .vals import (is_none, none_sv, unify, coerce, ite, mk_seq, seq_len, seq_arr, seq_eq, nsel)
 from .expr import ExprMixin
 from .calls import CallMixin
 from .dsl import Loop, Mod
@@ -179,11 +179,19 @@ class Exec(ExprMixin, CallMixin):
 
     def finish(self, out):
         c, eng = self.c, self.eng
-        if out.normal is not None:
-            out.rets.append((out.normal, none_sv(), 'end'))
+        for nst in out.normals:
+            out.rets.append((nst, none_sv(), 'end'))
         if out.brks or out.conts:
             raise Unsupported('break/continue outside loop')
         rt = eng.ptype(c.returns)
+        if out.rets or out.excs:
+            # vacuity guard: at least one exit of the function is reachable under the assumptions made on the way
+            cov = eng.obl('cover', 'exit', 'some exit reachable (assumed contracts consistent)')
+            cov.expect_sat = 'any'
+            for st, _, _ in out.rets:
+                cov.add(st.hyps(), z3.BoolVal(True), 'return')
+            for st, _, _ in out.excs:
+                cov.add(st.hyps(), z3.BoolVal(True), 'raise')
         for st, val, ordn in out.rets:
             if val is None:
                 val = none_sv()
@@ -193,7 +201,7 @@ class Exec(ExprMixin, CallMixin):
                 raise ContractError('%s: return value of type %s does not fit declared %s' % (c.name, val.t, rt))
             env = {k: v for k, v in self.entry.locals.items() if v is not None}   # parameters denote entry values
             env['result'] = res
-            self.use_lemmas(c.at_exit, st, env)
+            self.use_lemmas(c.at_exit, st, env, 'exit')
             for i, e in enumerate(c.ensures):
                 o = eng.obl('post', 'ensures#%d' % i, e)
                 g = self.spec_eval(e, st, env)
@@ -284,21 +292,29 @@ class Exec(ExprMixin, CallMixin):
             r = z3.Int(fresh_name('r'))
             allowed = self.frame_cond(key, c.modifies, r, old)
             goal = z3.ForAll([r], z3.Implies(z3.And(r > 0, r <= a0, z3.Not(allowed)),
-                                             z3.Select(val, r) == z3.Select(init, r)))
+                                             nsel(val, r) == nsel(init, r)))
             o = eng.obl('frame', '_'.join(str(x) for x in eng.hkey(key)[:2]), 'only declared objects change in %s' % (key[:2],))
             o.add(st.hyps(), goal, where)
 
     # ------------------------------------------------------------------ statements
+    CAP = 16
+
     def block(self, stmts, st):
+        Out.merger = self.merge
+        cur = [x for x in (st if isinstance(st, list) else [st]) if x is not None]
         out = Out()
-        cur = st
         for s in stmts:
-            if cur is None:
+            if not cur:
                 break
-            o = self.stmt(s, cur)
-            out.absorb(o)
-            cur = o.normal
-        out.normal = cur
+            if len(cur) > 1 and (isinstance(s, (ast.For, ast.While, ast.Try)) or len(cur) > self.CAP):
+                cur = [self.merge(cur)]
+            nxt = []
+            for c in cur:
+                o = self.stmt(s, c)
+                out.absorb(o)
+                nxt += o.normals
+            cur = nxt
+        out.normals = cur
         return out
 
     def take_exits(self, out):
@@ -608,7 +624,7 @@ class Exec(ExprMixin, CallMixin):
         o2 = self.block(s.orelse, b)
         out.absorb(o1)
         out.absorb(o2)
-        out.normal = self.merge([o1.normal, o2.normal])
+        out.normals = o1.normals + o2.normals
         return out
 
     def infeasible(self, st, cond):
@@ -716,6 +732,17 @@ class Exec(ExprMixin, CallMixin):
                             keys.add(('g', gname, self.eng.ptype(self.eng.prop.ghosts[gname])))
                     if isinstance(f, ast.Name) and f.id in self.eng.prop.classes:
                         keys.add(('alloc',))
+                        ctor = self.eng.find_method(f.id, '__init__')
+                        if ctor is not None:
+                            for m in ctor.modifies:
+                                if m.field.startswith('list'):
+                                    all_lists = True
+                                elif m.field.startswith('dict'):
+                                    all_dicts = True
+                                else:
+                                    keys.add(('f', m.field))
+                                    if self.has_live(('has', m.field), st):
+                                        keys.add(('has', m.field))
                     if isinstance(f, ast.Name) and f.id in ('list', 'dict'):
                         keys.add(('alloc',))
                 if isinstance(n, (ast.List, ast.Dict, ast.ListComp)):
@@ -769,11 +796,13 @@ class Exec(ExprMixin, CallMixin):
             if all_dicts and k[0] in ('dhas', 'dval'):
                 keys.add(k)
         a_pre = pre.h(('alloc',))
+        if ('alloc',) in keys:
+            na = z3.Int(fresh_name('alloc'))
+            st.seth(('alloc',), na)
+            st.assume(na >= a_pre)
+        fresh_keys = []
         for k in keys:
             if k == ('alloc',):
-                na = z3.Int(fresh_name('alloc'))
-                st.seth(k, na)
-                st.assume(na >= a_pre)
                 continue
             if k[0] in ('f', 'has') and k[1] not in self.eng.prop.fields:
                 continue
@@ -781,9 +810,14 @@ class Exec(ExprMixin, CallMixin):
             if full is None:
                 continue
             st.seth(full, z3.Const(fresh_name('H_' + '_'.join(str(x) for x in self.eng.hkey(full)[:2])), self.eng.heap_sort(full)))
+            fresh_keys.append(full)
             if full[0] == 'len':
                 r_ = z3.Int(fresh_name('r'))
                 st.assume(z3.ForAll([r_], z3.Select(st.h(full), r_) >= 0))
+        for full in fresh_keys:
+            ax = self.eng.closure(full, st.h(full), st.h(('alloc',)), st.h(self.eng.k_len()))
+            if ax is not None:
+                st.assume(ax)
         # type invariants of havocked locals
         for nm in names:
             v = st.locals.get(nm)
@@ -846,7 +880,7 @@ class Exec(ExprMixin, CallMixin):
             r = z3.Int(fresh_name('r'))
             allowed = self.frame_cond(key, mods, r, st.old)
             goal = z3.ForAll([r], z3.Implies(z3.And(r > 0, r <= a_pre, z3.Not(allowed)),
-                                             z3.Select(val, r) == z3.Select(before, r)))
+                                             nsel(val, r) == nsel(before, r)))
             o = self.eng.obl('loop-frame', 'loop%d:%s' % (ordn, '_'.join(str(x) for x in self.eng.hkey(key)[:2])),
                              'loop writes only declared objects')
             o.add(st.hyps(), goal, where)
@@ -868,7 +902,7 @@ class Exec(ExprMixin, CallMixin):
         pre = self.havoc(head, names | self.hidden_names(ordn), hkeys, al, ad, lc)
         self.loop_frame_assume(head, pre, lc)
         self.assume_inv(lc, head, env0(head))
-        self.use_lemmas(lc.at_head, head, env0(head))
+        self.use_lemmas(lc.at_head, head, env0(head), 'loop%d-head' % ordn)
         head_snapshot = head.copy()
         meas0 = None
         if lc.decreases is not None:
@@ -891,11 +925,11 @@ class Exec(ExprMixin, CallMixin):
         ob = self.block(node.body, body_st)
         out.rets += ob.rets
         out.excs += ob.excs
-        backs = [(s, 'end') for s in [ob.normal] if s is not None] + [(s, 'continue') for s in ob.conts]
+        backs = [(s, 'end') for s in ob.normals] + [(s, 'continue') for s in ob.conts]
         for s, how in backs:
             step_fn(s)
             self.take_exits(out)
-            self.use_lemmas(lc.at_end, s, env0(s))
+            self.use_lemmas(lc.at_end, s, env0(s), 'loop%d-end' % ordn)
             self.check_inv(lc, s, head_snapshot, 'inv-keep', 'loop%d' % ordn, env0(s), how)
             self.loop_frame_check(s, head_snapshot, lc, ordn, how, pre.h(('alloc',)))
             if meas0 is not None:
@@ -1038,12 +1072,16 @@ class Exec(ExprMixin, CallMixin):
             lc2 = self._with_bounds(lc2, '%s <= len(%s)' % (iname, sname))
         return self.run_loop(s, st, lambda st0: envf, cond, step, ordn, lc2)
 
-    def use_lemmas(self, texts, st, env):
-        """Ghost hints: conjunctions of lemma calls; each adds the proved lemma's instance as a hypothesis."""
-        for t in texts:
+    def use_lemmas(self, texts, st, env, anchor='hint'):
+        """Ghost proof steps: a lemma application adds the proved lemma's instance as a hypothesis; any other
+        expression is an intermediate assertion -- it becomes an obligation of its own and is then assumed."""
+        for i, t in enumerate(texts):
             g = self.spec_eval(t, st, env)
-            if not z3.is_true(z3.simplify(g)):
-                raise ContractError('%s: hint %r is not a pure lemma application' % (self.c.name, t))
+            if z3.is_true(z3.simplify(g)):
+                continue
+            o = self.eng.obl('assert', '%s#%d' % (anchor, i), t)
+            o.add(st.hyps(), g, anchor)
+            st.assume(g)
 
     def _with_bounds(self, lc, extra):
         l2 = Loop(inv=[extra] + list(lc.inv), decreases=lc.decreases, index=lc.index, seq=lc.seq, locals=lc.locals,
@@ -1134,14 +1172,14 @@ class Exec(ExprMixin, CallMixin):
         if chain is None:
             raise Unsupported('start_loop must name a loop nested only inside if-statements')
         out = Out()
-        cur = st
+        cur = [st]
         for blk in chain:
-            if cur is None:
+            if not cur:
                 break
             o = self.block(blk, cur)
             out.absorb(o)
-            cur = o.normal
-        out.normal = cur
+            cur = o.normals
+        out.normals = cur
         return out
 
     # ------------------------------------------------------------------ contract calls
@@ -1187,6 +1225,7 @@ class Exec(ExprMixin, CallMixin):
             na = z3.Int(fresh_name('alloc'))
             st.seth(('alloc',), na)
             st.assume(na >= a_pre)
+        havocked = []
         for m in c.modifies:
             for key in self.mod_keys(m, st):
                 before = st.h(key)
@@ -1201,6 +1240,14 @@ class Exec(ExprMixin, CallMixin):
                 st.assume(z3.ForAll([r], z3.Implies(z3.And(r > 0, r <= a_pre, z3.Not(allowed)),
                                                     z3.Select(nv, r) == z3.Select(before, r))))
                 st.seth(key, nv)
+                havocked.append(key)
+        for key in havocked:
+            ax = eng.closure(key, st.h(key), st.h(('alloc',)), st.h(eng.k_len()))
+            if ax is not None:
+                st.assume(ax)
+        if True:
+            if True:
+                pass
         for gname, gexpr in c.ghost_sets.items():
             gt = eng.ptype(eng.prop.ghosts[gname])
             gv = self.spec_value(gexpr, pre.copy(), env, old=pre)
